@@ -24,6 +24,7 @@ func main() {
 		}
 	}
 	d.F1(nodes)
+	d.ReflectSeqs(nodes)
 	d.F2(strLen)
 	d.F3(levels, true)
 	// all 256 level values on the default configuration
